@@ -736,7 +736,7 @@ class Transpose(Linop):
             self.iaxes = None
             oshape = ishape[::-1]
         else:
-            self.iaxes = np.argsort(axes)
+            self.iaxes = np.argsort([a % len(ishape) for a in axes])
             oshape = [ishape[a] for a in axes]
 
         super().__init__(oshape, ishape)
@@ -749,7 +749,7 @@ class Transpose(Linop):
             iaxes = None
             oshape = self.ishape[::-1]
         else:
-            iaxes = np.argsort(self.axes)
+            iaxes = np.argsort([a % len(self.ishape) for a in self.axes])
             oshape = [self.ishape[a] for a in self.axes]
 
         return Transpose(oshape, axes=iaxes)
